@@ -879,3 +879,42 @@ func specBoolByte(b bool) int {
 //@     invariant len(systemBytesCopy) == 4 && fresh(systemBytesCopy)
 //@     invariant forall k int :: 0 <= k && k <= rangeindex ==> systemBytesCopy[k] == systemBytes[k]
 //@     invariant forall k int :: rangeindex < k && k < 4 ==> systemBytesCopy[k] == 0
+
+// ---------------------------------------------------------------------------------------------
+// Message framing (SEMI E37) and list encoding
+
+//@ func (*DataMessage).ToBytes
+//@   property C01 C02 C11 C16
+//@   let complete = node.waitBit != 2 && nvars(node.dataItem) == 0 && node.sessionID != -1
+//@   let n = enc_len(node.dataItem)
+//@   requires node.dataItem != nil
+//@   ensures fresh(result)
+//@   ensures !complete ==> len(result) == 0
+//@   ensures complete ==> len(result) == 14 + n
+//@   ensures complete && n + 10 < 4294967296 ==> result[0] == ((n+10)/16777216)%256 && result[1] == ((n+10)/65536)%256 && result[2] == ((n+10)/256)%256 && result[3] == (n+10)%256
+//@   ensures complete ==> result[4] == node.sessionID/256 && result[5] == node.sessionID%256
+//@   ensures complete ==> result[6] == node.stream + ite(node.waitBit == 1, 128, 0) && result[7] == node.function && result[8] == 0 && result[9] == 0
+//@   ensures complete ==> forall k int :: 0 <= k && k < 4 ==> result[10+k] == node.systemBytes[k]
+//@   ensures complete ==> forall k int :: 0 <= k && k < n ==> result[14+k] == enc_at(node.dataItem, k)
+
+//@ type ListNode view list_off(box(self, *ListNode), 0) == 1 + specNLen(len(self.values))
+//@   view forall i int :: 0 <= i && i < len(self.values) ==> list_off(box(self, *ListNode), i+1) == list_off(box(self, *ListNode), i) + enc_len(self.values[i])
+
+//@ func (*ListNode).ToBytes
+//@   property C02 C16 C01 C13
+//@   let n = len(node.values)
+//@   let h = 1 + specNLen(n)
+//@   let me = box(node, *ListNode)
+//@   ensures fresh(result)
+//@   ensures len(node.variables) != 0 ==> len(result) == 0
+//@   ensures (exists i int :: 0 <= i && i < n && enc_len(node.values[i]) == 0) ==> len(result) == 0
+//@   ensures len(node.variables) == 0 && (forall i int :: 0 <= i && i < n ==> enc_len(node.values[i]) != 0) ==> len(result) == list_off(me, n)
+//@   ensures len(result) != 0 ==> result[0] == specFormatCode("list")*4 + specNLen(n)
+//@   ensures len(result) != 0 ==> forall k int :: 0 <= k && k < h-1 ==> result[1+k] == specLenByte(n, h-1, k)
+//@   loop 1
+//@     invariant 0 <= rangeindex+1 && rangeindex+1 <= n && len(node.variables) == 0
+//@     invariant fresh(result) && len(result) == list_off(me, rangeindex+1) && h <= len(result)
+//@     invariant forall i int :: 0 <= i && i <= rangeindex ==> enc_len(node.values[i]) != 0
+//@     invariant forall i int :: 0 <= i && i <= rangeindex ==> h <= list_off(me, i) && list_off(me, i) + enc_len(node.values[i]) <= len(result)
+//@     invariant result[0] == specFormatCode("list")*4 + specNLen(n)
+//@     invariant forall k int :: 0 <= k && k < h-1 ==> result[1+k] == specLenByte(n, h-1, k)
